@@ -181,7 +181,7 @@ theorem shape_step {E : Engine} (hE : EngineOK E) {cfg : Cfg} {votes : Profile} 
       rcases hp with hp | hp
       · exact hj.sub p hp
       · exact hsub _ (hfacts p hp).1
-  | elimination hout =>
+  | elimination _ hout =>
     obtain ⟨retained, _, _, htr, he1, _⟩ := afterElimination_inv hout
     have hm := transferIf_moved hE htr
     have hseats : seatsAdd st.seats out.elected = st.seats := by rw [he1]; rfl
